@@ -59,6 +59,9 @@ class RegexReader:
         return depths[1:]
 
     def _begins_with_parenthesis_components(self):
+        if not self._components:
+            # Nothing is left between the parenthesis
+            raise MisformedRegexError(WRONG_PARENTHESIS_MESSAGE, self._regex)
         return self._components[0] == "("
 
     def _setup_precedence_when_not_trivial(self):
@@ -132,6 +135,8 @@ class RegexReader:
 
     def _setup_non_trivial_regex(self):
         self._set_end_first_group_in_components()
+        if self._end_current_group >= len(self._components):
+            raise MisformedRegexError(MISFORMED_MESSAGE, self._regex)
         next_node = to_node(self._components[self._end_current_group])
         if isinstance(next_node, KleeneStar):
             self.head = next_node
